@@ -670,7 +670,10 @@ pub fn build_default_config(conf: &crate::config::Config, request: &DHCPRequest)
                 let mut ret = config::Policy {
                     match_subnet: Some(subnet),
                     apply_address: Some(
-                        (1..((1 << (32 - p4.prefixlen)) - 2))
+                        /* Offsets of the host addresses: everything but the network address (0) and
+                         * the broadcast address (2^n - 1), so the range ends at 2^n - 2 inclusive.
+                         */
+                        (1..((1 << (32 - p4.prefixlen)) - 1))
                             .map(|offset| (u32::from(subnet.network()) + offset).into())
                             // TODO: This removes one IP from the list, it should also remove any
                             // others found on the local machine.  Probably fine for now, but
